@@ -3,3 +3,4 @@ import Generated.Shapes
 import Generated.Sites
 import Generated.Funcs
 import Generated.Fingerprints
+import Generated.Fills
